@@ -68,3 +68,39 @@ func vC02BlockReader(N int, smallLimit bool) {
 		return
 	}
 }
+
+// VerifH_C02_BlockReaderDataWithEOF: the same oracle over a source that delivers its last bytes
+// together with io.EOF (allowed by the io.Reader contract): truncation inside a section must
+// still not look like a clean end.
+func VerifH_C02_BlockReaderDataWithEOF() {
+	N := 9
+	if vTier() == 1 {
+		N = 12
+	}
+	root := vIdentityCid([]byte("r"))
+	hdr := vHeaderV1(root)
+	in := vBytes("in", N)
+	n := vInt("n")
+	vAssume(n >= 0 && n <= N)
+	src := &vEOFStream{data: vCat(hdr, in[:n])}
+	br, err := NewBlockReader(src, MaxAllowedSectionSize(uint64(N)))
+	vAssert("header-accepted", err == nil)
+	for i := 0; i < 4; i++ {
+		before := src.pos
+		blk, err := br.Next()
+		if err == nil {
+			c := blk.Cid()
+			h, herr := c.Prefix().Sum(blk.RawData())
+			vAssert("integrity", herr == nil && h.Equals(c))
+			vCover("block-returned", true)
+			continue
+		}
+		if err == io.EOF {
+			vAssert("clean-eof-only-at-boundary", src.pos == before)
+			vCover("clean-eof", true)
+			return
+		}
+		vCover("error-reported", true)
+		return
+	}
+}
